@@ -181,6 +181,23 @@ def variant_reparam(desc, rng):
     return d, "variant_reparam"
 
 
+def checkout_edit(desc, rng):
+    """an edit that changes nothing but the Variant-Id of a deterministic checkout (seed C01-3: the checkout must
+    run again although no SCM changed): its script text, or the value of a variable only the checkout consumes"""
+    d = copy.deepcopy(desc)
+    cands = [n for n, r in sorted(d["recipes"].items()) if r.get("checkoutDeterministic") and "checkoutScript" in r]
+    if not cands:
+        return None
+    r = d["recipes"][rng.choice(cands)]
+    cv = [v for v in r.get("checkoutVars", []) if v in r.get("environment", {})
+          and v not in r.get("buildVars", []) and v not in r.get("packageVars", [])]
+    if cv and rng.random() < 0.5:
+        r["environment"][cv[0]] += "C"
+        return d, "checkout_var_value"
+    r["checkoutScript"] += "echo edited > co-edited-%d.txt\n" % rng.randrange(1000)
+    return d, "checkout_script"
+
+
 def gen_history(rng, n, prefer=None):
     """list of project descriptions: random single edits and reverts to earlier states;
     prefer = edit kinds to favour (C05: edits that make steps re-execute, so that injected faults fire)"""
@@ -194,6 +211,11 @@ def gen_history(rng, n, prefer=None):
             continue
         if rng.random() < 0.2:
             e = variant_reparam(hist[-1], rng)
+            if e is not None:
+                hist.append(e[0]); kinds.append(e[1])
+                continue
+        if rng.random() < 0.15:
+            e = checkout_edit(hist[-1], rng)
             if e is not None:
                 hist.append(e[0]); kinds.append(e[1])
                 continue
